@@ -5,7 +5,8 @@ wt=$1; patch=$2; shift 2
 props=${@:-C01 C02 C03 C04 C05 C06 C07 C08 C09 C10 C11 C12 C13 C14 C15 C16 C17 C18 C19 C20}
 git -C $wt checkout -q -- . ; git -C $wt apply $patch || { echo "APPLY-FAILED $patch"; exit 2; }
 for p in $props; do
-  out=$(PAMS_REPO=$wt /verif/check $p quick 2>&1 | grep -v "^WARNING" | grep "^\[\|^VIOLATION\|Traceback\|Error" | tail -3 | tr '\n' ' ')
+  V=$(cd "$(dirname "$0")/../.." && pwd)
+  out=$(PAMS_REPO=$wt $V/check $p quick 2>&1 | grep -v "^WARNING" | grep "^\[\|^VIOLATION\|Traceback\|Error" | tail -3 | tr '\n' ' ')
   echo "$p: $out" | cut -c1-330
 done
 git -C $wt checkout -q -- .
